@@ -66,4 +66,178 @@ def check (v : List Nat) (impl : String) : Option String :=
   | _ => none
 
 end C16
+
+namespace C14
+
+def specRgbSmall (dp : RgbDepth) : Nat × UInt64 := Id.run do
+  let mut h := H0
+  let mut whites := 0
+  for r in [0:dp.mr+1] do
+    for g in [0:dp.mg+1] do
+      for b in [0:dp.mb+1] do
+        let c := (nearestBW dp r g b).idx
+        h := mix h (UInt64.ofNat c)
+        whites := whites + c
+  return (whites, h)
+
+def specRgb888 (stride offset : Nat) : UInt64 := Id.run do
+  let mut hc := H0
+  let mut v := offset
+  for _ in [0:(16777216 + stride - 1 - offset) / stride] do
+    if v < 16777216 then
+      hc := mix hc (UInt64.ofNat (nearestBW rgb888 (v / 65536) (v / 256 % 256) (v % 256)).idx)
+      v := v + stride
+  return hc
+
+def digit (c : Char) : Nat := c.toNat - 48
+
+/-- property checks on the implementation's printed results of one `color,<domain>` op -/
+def check (a : List String) (impl : String) : List String :=
+  match a with
+  | ["color", "bytes"] =>
+    let groups := (impl.splitOn ".").filter (· ≠ "")
+    if groups.length ≠ 256 then [s!"site=color/bytes reason=unparsable got={groups.length} want=256"] else
+    Option.toList <| (List.range 256).findSome? fun v =>
+      match (groups.getD v "").toList with
+      | [c, o, hi, lo] =>
+        let wantC := if v = 0 then '0' else if v = 1 then '1' else 'p'
+        let nlo := v % 16
+        let nhi := v / 16
+        let wantO := if nlo < 8 then Char.ofNat (48 + nlo) else 'e'
+        let wantHi := if nlo < 8 ∧ nhi < 8 then Char.ofNat (48 + nhi) else 'e'
+        let wantLo := if nlo < 8 ∧ nhi < 8 then Char.ofNat (48 + nlo) else 'e'
+        if c ≠ wantC then some s!"site=color/from_u8 reason=decode got={c} want={wantC} byte={v}"
+        else if o ≠ wantO then some s!"site=color/from_nibble reason=decode got={o} want={wantO} byte={v}"
+        else if hi ≠ wantHi ∨ lo ≠ wantLo then some s!"site=color/split_byte reason=decode got={hi}{lo} want={wantHi}{wantLo} byte={v}"
+        else none
+      | _ => some s!"site=color/bytes reason=unparsable got={groups.getD v ""} want=4chars"
+  | ["color", "raw"] =>
+    match impl.splitOn ";" with
+    | fromU1 :: toU1 :: fromU2 :: fromU4 :: bin :: _ =>
+      let f := fromU1.toList.map digit
+      let t := toU1.toList.map digit
+      -- colour index c → raw t[c] → colour f[t[c]] must be c again
+      let rt := (List.range 2).find? fun c => f.getD (t.getD c 9) 9 ≠ c
+      let r1 := match rt with
+        | some c => [s!"site=color/raw_u1 reason=roundtrip got={f.getD (t.getD c 9) 9} want={c}"]
+        | none => []
+      let r2 := if fromU2.toList.map digit ≠ [1, 0, 2, 2] then [s!"site=color/raw_u2 reason=decode got={fromU2} want=1022"] else []
+      let r3 := if fromU4.toList.any (· == 'p') then
+          [s!"site=color/raw_u4 reason=panic got={fromU4} want=no-panic"]
+        else if (fromU4.toList.take 8).map digit ≠ List.range 8 then [s!"site=color/raw_u4 reason=decode got={fromU4} want=01234567.."]
+        else []
+      let r4 := if bin ≠ "111000" then [s!"site=color/binary reason=decode got={bin} want=111000"] else []
+      r1 ++ r2 ++ r3 ++ r4
+    | _ => [s!"site=color/raw reason=unparsable got={(impl.take 40).toString} want=fields"]
+  | ["color", "rgb565"] =>
+    let (w, h) := specRgbSmall rgb565
+    if kvOf impl "W" ≠ some (toString w) ∨ kvOf impl "H" ≠ some (hex16 h) then
+      [s!"site=color/from_rgb565 reason=brightness got=W={(kvOf impl "W").getD "?"} want=W={w}"]
+    else []
+  | ["color", "rgb555"] =>
+    let (w, h) := specRgbSmall rgb555
+    if kvOf impl "W" ≠ some (toString w) ∨ kvOf impl "H" ≠ some (hex16 h) then
+      [s!"site=color/from_rgb555 reason=brightness got=W={(kvOf impl "W").getD "?"} want=W={w}"]
+    else []
+  | ["color", "rgb888", s, o] =>
+    match s.toNat?, o.toNat? with
+    | some s, some o =>
+      if s = 0 then [] else
+      if kvOf impl "C" ≠ some (hex16 (specRgb888 s o)) then
+        [s!"site=color/from_rgb888 reason=brightness got=C={(kvOf impl "C").getD "?"} want=C={hex16 (specRgb888 s o)}"]
+      else []
+    | _, _ => []
+  | ["color", "rgbone", d, r, g, b] =>
+    match r.toNat?, g.toNat?, b.toNat? with
+    | some r, some g, some b =>
+      let dp := if d == "565" then rgb565 else if d == "555" then rgb555 else rgb888
+      let want := (nearestBW dp r g b).idx
+      if kvOf impl "C" ≠ some (toString want) then
+        [s!"site=color/from_rgb{d} reason=brightness got=C={(kvOf impl "C").getD "?"} want=C={want} rgb={r}.{g}.{b}"]
+      else []
+    | _, _, _ => []
+  | _ => []
+
+end C14
+
+namespace C03
+
+/-- checks on the implementation's result of one `setpx` / `setone` batch -/
+def check (a : List String) (impl : String) : List String :=
+  match a with
+  | ["setpx", target, rot, _col, _seed, mode] =>
+    let isVar := target.startsWith "var:"
+    let tag := if isVar then ((target.drop 4).toString.splitOn ":").getD 2 "bw"
+      else match aliases.find? (·.panel == target) with
+        | some al => kindTag al.kind
+        | none => "bw"
+    let site := if mode == "ext" then "graphics/rotation-overflow"
+      else if isVar then s!"graphics/vardisplay/{tag}" else s!"graphics/display/{tag}"
+    if impl == "R=err" then [] else
+    let np := (kvOf impl "NP").getD "?"
+    let r1 := if np ≠ "0" then [s!"site={site} reason=panic got=P={(kvOf impl "P").getD "?"} want=no-panic rot={rot}"] else []
+    let r2 := if isVar ∧ kvOf impl "TAIL" ≠ some "1" then [s!"site={site} reason=outside-slice got=TAIL=0 want=TAIL=1"] else []
+    -- reported size: swapped exactly for 90/270
+    let dims : Option (Nat × Nat) :=
+      if isVar then
+        match (target.drop 4).toString.splitOn ":" with
+        | w :: h :: _ => do pure (← w.toNat?, ← h.toNat?)
+        | _ => none
+      else (aliases.find? (·.panel == target)).map fun al => (al.drvW, al.drvH)
+    let r3 := match dims, parseRot rot with
+      | some (w, h), some r =>
+        let (sw, sh) := displaySize w h r
+        if kvOf impl "S" ≠ some s!"{sw}.{sh}" then [s!"site={site} reason=size got=S={(kvOf impl "S").getD "?"} want=S={sw}.{sh}"] else []
+      | _, _ => []
+    r1 ++ r2 ++ r3
+  | "setone" :: _ =>
+    if impl == "R=panic" then ["site=graphics/set_pixel reason=panic got=panic want=no-panic"] else []
+  | _ => []
+
+end C03
+
+namespace C13
+
+def check (a : List String) (impl : String) : List String :=
+  match a with
+  | ["alias"] =>
+    let rows := (impl.splitOn ";").filter (· ≠ "")
+    let r0 := if rows.length ≠ aliases.length then
+      [s!"site=graphics/alias reason=count got={rows.length} want={aliases.length}"] else []
+    r0 ++ rows.flatMap fun row =>
+      let fields := row.splitOn ":"
+      -- single-plane rows have no `order` field
+      match (if fields.length = 9 then fields ++ ["1"] else fields) with
+      | [name, w, h, len, zero, tag, _bwr, l1, l2, order] =>
+        match aliases.find? (·.panel == name), w.toNat?, h.toNat?, len.toNat? with
+        | some al, some w, some h, some len =>
+          let k := ckOfTag tag
+          let site := s!"graphics/alias/{name}"
+          (if (w, h) ≠ (al.drvW, al.drvH) then [s!"site={site} reason=dimensions got={w}x{h} want={al.drvW}x{al.drvH}"] else []) ++
+          (if len ≠ requiredLen w h k then [s!"site={site} reason=length got={len} want={requiredLen w h k}"] else []) ++
+          (if zero ≠ "1" then [s!"site={site} reason=not-zero got={zero} want=1"] else []) ++
+          (if tag == "tri" ∧ (l1.toNat? ≠ some (len / 2) ∨ l2.toNat? ≠ some (len / 2) ∨ len % 2 ≠ 0 ∨ order ≠ "1") then
+            [s!"site={site} reason=halves got={l1}+{l2} want={len / 2}+{len / 2}"] else [])
+        | _, _, _, _ => [s!"site=graphics/alias reason=unknown-row got={name} want=known-alias"]
+      | _ => [s!"site=graphics/alias reason=unparsable got={(row.take 40).toString} want=row"]
+  | ["vardisp", w, h, tag, len] =>
+    match w.toNat?, h.toNat?, len.toNat? with
+    | some w, some h, some len =>
+      let k := ckOfTag tag
+      let req := requiredLen w h k
+      let site := s!"graphics/vardisplay-new/{tag}"
+      if impl == "R=err" then
+        if req ≤ len then [s!"site={site} reason=rejects-sufficient got=err want=ok geometry={w}x{h} len={len}"] else []
+      else
+        (if len < req then [s!"site={site} reason=accepts-short got=ok want=err geometry={w}x{h} len={len} need={req}"] else []) ++
+        (if kvOf impl "L" ≠ some (toString req) then [s!"site={site} reason=exposed-length got=L={(kvOf impl "L").getD "?"} want=L={req} geometry={w}x{h}"] else []) ++
+        (if tag == "tri" ∧ kvOf impl "BW" ≠ kvOf impl "CH" then [s!"site={site} reason=halves got={(kvOf impl "BW").getD "?"}+{(kvOf impl "CH").getD "?"} want=equal geometry={w}x{h}"] else [])
+    | _, _, _ => []
+  | ["vargrid", _, _] =>
+    if kvOf impl "PANICS" ≠ some "0" then
+      [s!"site=graphics/vardisplay/any reason=panic got=FIRST={(kvOf impl "FIRST").getD "?"} want=no-panic count={(kvOf impl "PANICS").getD "?"}"]
+    else []
+  | _ => []
+
+end C13
 end EpdVerif.Oracle
